@@ -284,6 +284,12 @@ def assemble(
 
     except FlipJumpException as fj_exception:
         raise fj_exception
+    except RecursionError as recursion_error:
+        # expressions are evaluated (and printed) recursively, so a very long / deeply nested one can exhaust python's stack.
+        raise FlipJumpAssemblerException(
+            "An expression in the .fj files is nested too deeply for the assembler to evaluate "
+            "(python's recursion limit was reached). Split it with constants, or raise max_recursion_depth."
+        ) from recursion_error
     except Exception as unknown_exception:
         raise FlipJumpAssemblerException(
             "Unknown exception during assembling the .fj files, please report this bug"
